@@ -50,6 +50,22 @@ def run(ctx):
         b3 = ctx.behaviours(ctx.tlc("MC_When", "MC_When.cfg", workers=1, timeout=900, constants=two, simulate="num=%d" % (60 if q else 800), depth=8,
                                     tag="when/%s configurations for the debug replay" % sig))
         replay_family(ctx, "when", b3, env=dict(dbg, VERIF_SIG=sig))
+    # concurrent callers of one mock under debug logging: every caller passes its own argument and must get its own result
+    import json, os
+    from lib.replay import drv_binary
+    out = ctx.path("conc_debug.ndjson")
+    rc, o = ctx.run_bin(drv_binary(ctx), "^TestVerifConcStress$", env={"VERIF_OUT": out, "VERIF_ROUNDS": str(15 if q else 150), "VERIF_LOG": "debug", "VERIF_QUIET": "1"}, timeout=900)
+    if rc != 0 or not os.path.exists(out):
+        ctx.violation("concurrent callers / mockers under debug logging crashed: " + o[-900:], {"family": "conc-debug", "kind": "crash", "tail": o[-2500:]})
+    else:
+        evs = [json.loads(l) for l in open(out).read().splitlines() if l.strip()]
+        bad = [e for e in evs if e.get("ev") == "call" and not e.get("ok")]
+        ctx.count(len(evs))
+        if bad:
+            ctx.violation("under debug logging a caller of a mocked function received a result that is not its own (%d calls, e.g. got %s): "
+                          "overlapping calls must not see each other's arguments or results" % (len(bad), bad[0].get("got")),
+                          {"family": "conc-debug", "kind": "wrong-result", "calls": len(bad), "first": bad[0]})
+        ctx.note("concurrent stress under debug logging: %d events, %d wrong call results" % (len(evs), len(bad)))
     ctx.cov["rule"] = ("the behaviours of the lifecycle family (all histories of the stub alphabet to depth 3 + random "
                        "length-12 histories with OpenDebug/CloseDebug/OpenTrace/CloseTrace interleaved by TLC) replayed under "
                        "4 logging configurations x 4 handle kinds; the oracle (required call results, image) has no logging "
